@@ -44,7 +44,7 @@ def run_property(pid, tier, jobs, verbose=False, record_baseline=False):
     from pyvc import cli
     os.makedirs(EVID, exist_ok=True)
     os.makedirs(REPLAYS, exist_ok=True)
-    timeout_ms = 10000 if tier == "quick" else 60000
+    timeout_ms = 10000 if tier == "quick" else 30000      # thorough: 3x the resource budgets
     try:
         repo, world, ex, R = cli.load()
     except Exception as e:  # noqa
@@ -55,6 +55,14 @@ def run_property(pid, tier, jobs, verbose=False, record_baseline=False):
         pmod = importlib.import_module(f"props.{pid}")
     except ModuleNotFoundError:
         pmod = None
+    guards = []
+    # engine guard, run alongside: CPython cross-check of the encoding of Python semantics (tools/xcheck.py)
+    import subprocess as _sp
+    try:
+        xproc = _sp.Popen(["python3-vt", os.path.join(ROOT, "tools", "xcheck.py")], stdout=_sp.PIPE, stderr=_sp.STDOUT, text=True,
+                          env={k: v for k, v in os.environ.items() if k != "HIVE_REPO"})
+    except Exception:  # noqa
+        xproc = None
     keys = cli.functions_for(R, pid)
     if pmod is not None and hasattr(pmod, "extra_functions"):
         keys += [k for k in pmod.extra_functions(R) if k not in keys]
@@ -95,6 +103,16 @@ def run_property(pid, tier, jobs, verbose=False, record_baseline=False):
             import traceback
             extra = [{"id": f"{pid}.extra", "kind": "lemma", "status": "error", "backend": "-", "secs": 0,
                       "props": [pid], "detail": traceback.format_exc()[-1500:]}]
+    if xproc is not None:
+        try:
+            xout, _ = xproc.communicate(timeout=1800)
+            xlines = xout.strip().splitlines()
+            xok = xproc.returncode == 0 and xlines and xlines[-1].startswith("xcheck:") and " 0 disagreements" in xlines[-1]
+            guards.append({"guard": "CPython cross-check of the encoding (tools/xcheck.py)", "ok": bool(xok),
+                           "detail": (xlines[-1] if xlines else "no output")[:300] if xok else "\n".join(xlines[-8:])[:1500]})
+        except Exception as e_:  # noqa
+            xproc.kill()
+            guards.append({"guard": "CPython cross-check of the encoding (tools/xcheck.py)", "ok": False, "detail": repr(e_)[:300]})
     # thorough tier: bounded native exploration with the property's oracle (never counted as proved; a hit is a real
     # failing input on the real code)
     bounded = []
@@ -144,6 +162,9 @@ def run_property(pid, tier, jobs, verbose=False, record_baseline=False):
     obs.extend(extra)
     if extra_hit is not None:
         obs.append(extra_hit)
+    for g_ in guards:
+        if not g_["ok"]:
+            errors.append(("engine guard: " + g_["guard"], g_["detail"]))
     kf = [f for f in known_findings() if f["property"] == pid]
     violations, known_hits, undecided, timed_out = [], [], [], []
     for o in obs:
@@ -254,6 +275,7 @@ def run_property(pid, tier, jobs, verbose=False, record_baseline=False):
             "known_findings_matched": sorted(printed_known),
             "not_decided": info.get("not_decided", []),
             "bounded": info.get("bounded", []) + bounded,
+            "engine_guards": guards,
             "explanation": info.get("explanation", ""),
             "obligation_list": [{"id": o["id"], "status": o["status"], "backend": o["backend"], "secs": o.get("secs", 0)} for o in obs],
         },
